@@ -308,12 +308,22 @@ def run_kani(unit, timeout=900, playback=False):
         if playback:
             cmd += ['-Z', 'concrete-playback', '--concrete-playback=inplace']
         timeout = unit.get('timeout', timeout)
+        # concurrent checks share the Kani target directory: Kani's per-harness artifacts there are not safe against two
+        # runs of the same harness from different scratch trees, so Kani runs are serialised across processes
+        import fcntl
+        os.makedirs(KANI_TARGET, exist_ok=True)
+        lockf = open(os.path.join(KANI_TARGET, '.verif_kani.lock'), 'w')
+        fcntl.flock(lockf, fcntl.LOCK_EX)
         try:
             r = subprocess.run(cmd, cwd=scratch, env=env, stdout=subprocess.PIPE, stderr=subprocess.STDOUT, text=True,
                                timeout=timeout)
             out, rc = r.stdout, r.returncode
         except subprocess.TimeoutExpired as e:
             out, rc = (e.stdout or b'').decode(errors='replace') if isinstance(e.stdout, bytes) else (e.stdout or ''), 124
+        finally:
+            if not playback:
+                fcntl.flock(lockf, fcntl.LOCK_UN)
+                lockf.close()
         verdict = 'undecided'
         failed = re.findall(r'Failed Checks: (.*)', out)
         if 'VERIFICATION:- SUCCESSFUL' in out and '1 successfully verified harnesses, 0 failures' in out:
@@ -338,6 +348,12 @@ def run_kani(unit, timeout=900, playback=False):
                     cex['native_cmd'] = ' '.join(pcmd)
                 except subprocess.TimeoutExpired:
                     cex['native_fails'] = None
+        if playback:
+            try:
+                fcntl.flock(lockf, fcntl.LOCK_UN)
+                lockf.close()
+            except Exception:
+                pass
         return {'name': unit['name'], 'verdict': verdict, 'failed_checks': failed[:10], 'rc': rc, 'wall_s': time.time() - t0,
                 'cmd': ' '.join(cmd), 'tail': out[-3000:], 'backs': unit.get('backs'), 'complete': unit.get('complete', False),
                 'what': unit.get('what'), 'mode': unit.get('mode', 'always'), 'counterexample': cex}
